@@ -181,6 +181,22 @@ fn borrow_chain(la: usize, lb: usize) -> (Vec<u64>, Vec<u64>) {
     (a, b)
 }
 
+/// structured carry / borrow chains over all length pairs (also used by the C10 driver)
+pub fn chains(r: &mut Rec, maxlen: usize, all: bool) {
+    for la in 0..=maxlen {
+        for lb in 1..=la {
+            if all || (la + 2 * lb) % 4 == 0 {
+                let (a, b) = carry_chain(la, lb, la);
+                one_case(r, &format!("carry_full {}x{}", la, lb), &a, &b, false);
+                let (a, b) = carry_chain(la, lb, (la + lb) / 2);
+                one_case(r, &format!("carry_part {}x{}", la, lb), &a, &b, false);
+                let (a, b) = borrow_chain(la, lb);
+                one_case(r, &format!("borrow {}x{}", la, lb), &a, &b, false);
+            }
+        }
+    }
+}
+
 pub fn run(r: &mut Rec) {
     let maxlen: usize = if r.thorough { 23 } else { 17 };
     // per-(la, lb) how many patterned pairs
@@ -195,17 +211,9 @@ pub fn run(r: &mut Rec) {
                 let b = digits(&mut rng, lb, pb);
                 one_case(r, &format!("pat {}x{} {:?} {:?}", la, lb, pa, pb), &a, &b, false);
             }
-            // structured chains
-            if la >= lb && lb >= 1 && (r.thorough || (la + 2 * lb) % 4 == 0) {
-                let (a, b) = carry_chain(la, lb, la);
-                one_case(r, &format!("carry_full {}x{}", la, lb), &a, &b, false);
-                let (a, b) = carry_chain(la, lb, (la + lb) / 2);
-                one_case(r, &format!("carry_part {}x{}", la, lb), &a, &b, false);
-                let (a, b) = borrow_chain(la, lb);
-                one_case(r, &format!("borrow {}x{}", la, lb), &a, &b, false);
-            }
         }
     }
+    chains(r, maxlen, r.thorough);
     // exhaustive landmark strings around the block boundary (lengths 4..6 x 4..6, reduced alphabet)
     let alpha = [0u64, 1, u64::MAX];
     let lens: &[usize] = if r.thorough { &[1, 2, 5, 6] } else { &[5] };
